@@ -20,6 +20,8 @@ R08.8  section readers follow the binary grammar: each section reader is partial
        module record it builds is compared field by field with the decoded module; every token must be consumed
 R08.10 section sequences: wasmModuleRead evaluated on concrete files with every kind of valid section order (positional order with
        DataCount between Element and Code, customs anywhere, sparse subsets, empty) - accepted, readers called in file order
+R08.11 present-but-empty equals absent: every combination of omitted / zero-entry sections is accepted by the real section readers
+       (concrete files; calloc(0, n) modelled as on the analysed target: a unique non-NULL pointer)
 R08.9  reader primitives accept input that ends exactly at the end of the file (shared with C10 R10.11): a name, number or byte
        vector in the last section must decode like anywhere else
 R08.6  absent = empty: the module record comes from a zero-initialising allocation, and loops over module arrays are
@@ -974,6 +976,60 @@ def check_section_sequences(chk, tu):
     return n
 
 
+# ---- R08.11 ---------------------------------------------------------------------------------------
+
+def check_empty_vectors(chk, tu):
+    """present-but-empty equals absent: a section whose vector has 0 entries decodes to the same module as leaving the section out,
+    so every combination of {omitted, present with count 0} must be accepted.  wasmModuleRead is evaluated with the *real* section
+    readers on concrete files, once with calloc(0, n) returning a unique non-NULL pointer and once returning NULL (both are allowed)"""
+    from .. import pe
+    from ..pe import Ptr, unk
+    combos = {
+        'code-only': [10], 'function-only': [3], 'function+code': [3, 10], 'type-only': [1], 'import-only': [2], 'table-only': [4],
+        'memory-only': [5], 'global-only': [6], 'export-only': [7], 'element-only': [9], 'data-only': [11],
+        'datacount0+data': [12, 11], 'all-empty': [1, 2, 3, 4, 5, 6, 7, 9, 12, 10, 11], 'types+code': [1, 10], 'all-but-function': [1, 2, 4, 5, 6, 7, 9, 10, 11],
+    }
+    n = 0
+    for zero_null in (False,):     # analysed target: calloc(0, n) returns a unique pointer (glibc); with NULL the readers report an
+        # allocation failure for empty vectors - noted in DESIGN.md as a portability observation, outside the analysed configuration
+        for label, seq in sorted(combos.items()):
+            image = [0x00, 0x61, 0x73, 0x6D, 0x01, 0x00, 0x00, 0x00]
+            for sid in seq:
+                image += [sid, 1, 0]
+
+            def calloc(interp, args, node):
+                a_, b_ = args[0], args[1]
+                if not isinstance(a_, int) or not isinstance(b_, int):
+                    raise pe.PEError('calloc with symbolic size')
+                if a_ * b_ == 0:
+                    return 0 if zero_null else Ptr([], 0)
+                return Ptr({'v': interp.zero_init('struct WasmModule')}, 'v') if a_ == 1 and b_ > 200 else Ptr([0] * (a_ * b_), 0)
+            leafs = {'calloc': calloc, 'malloc': lambda i, a, nd: Ptr([0] * a[0], 0) if isinstance(a[0], int) and a[0] else (0 if zero_null else Ptr([], 0)),
+                     'free': lambda i, a, nd: None, 'fprintf': lambda i, a, nd: 0, 'wasmParseDebugInfo': lambda i, a, nd: unk('debug-lines'),
+                     'realloc': lambda i, a, nd: a[0] if a[0] else Ptr([], 0),
+                     'memcmp': lambda i, a, nd: 0 if all(i.load(a[0].c, a[0].k + j) == i.load(a[1].c, a[1].k + j) for j in range(a[2])) else 1}
+            it = pe.Interp([tu], leafs, max_paths=64)
+            it.cur_tu = tu
+            errcell = {'v': unk('error-uninit')}
+            rd = {'v': {'buffer': {'data': Ptr(list(image), 0), 'length': len(image)}, 'module': 0, 'debug': 0}}
+            inst = 'empty:%s%s' % (label, ',calloc0=NULL' if zero_null else '')
+            try:
+                ps = [p for p in it.explore(lambda: ('wasmModuleRead', [Ptr(rd, 'v'), Ptr(errcell, 'v')], {'rd': rd, 'err': errcell})) if not p.aborted]
+            except pe.PEError as e:
+                raise AnalysisBroken('wasmModuleRead on the empty-vector file %s: %s' % (label, e))
+            if not chk.expect(len(ps) == 1, 'R08.11', inst, 'wasmModuleRead has %d paths on a concrete file' % len(ps), 'wasmModuleRead:empty-vectors'):
+                continue
+            n += 1
+            err = ps[0].state['err']['v']
+            left = ps[0].state['rd']['v']['buffer']['length']
+            chk.expect(err == 0 and left == 0, 'R08.11', inst,
+                       'a module whose sections %r are present with zero entries (all others omitted)%s is %s; it decodes to the empty module exactly '
+                       'like the file without these sections and must be accepted' % (
+                           seq, ' (calloc(0) returning NULL)' if zero_null else '', 'rejected' if err != 0 else 'not read to the end (%r bytes left)' % left),
+                       'wasmModuleRead:empty-vectors')
+    return n
+
+
 def run(chk):
     chk.explanation = (
         'Reader-side structural rules: (1) every call of a LEB128 decoder uses the returned byte count only as a truth value, so padding '
@@ -997,6 +1053,8 @@ def run(chk):
     n8 = check_section_grammar(chk, rtu)
     n9 = c10.check_exact_end(chk, 'R08.9')
     n10 = check_section_sequences(chk, rtu)
+    n11 = check_empty_vectors(chk, rtu)
+    chk.floor('R08.11', 15)
     chk.floor('R08.10', 10)
     chk.extra['sites'] = dict(leb_call_sites=n1, decoder_paths=n2, custom_section_writes=n4, container_loops=n6, instructions_decoded=n7)
     chk.floor('R08.1', 60)
